@@ -144,7 +144,12 @@ def gen_recipe(rng):
     if fn == 'SUMIF':
         p = pairs[0]
         with_target = rng.random() < 0.8
-        f = '=SUMIF(%s,%s%s)' % (rng_txt(p['col'], p['len']), p['text'], ',' + rng_txt('E', p['len'], off) if with_target else '')
+        xt = with_target and not whole and off == 0 and rng.random() < 0.3
+        if xt:
+            # the target lies on ANOTHER sheet, at the very addresses of the criteria range
+            f = '=SUMIF(%s,%s,T2!%s)' % (rng_txt(p['col'], p['len']), p['text'], rng_txt(p['col'], p['len']))
+        else:
+            f = '=SUMIF(%s,%s%s)' % (rng_txt(p['col'], p['len']), p['text'], ',' + rng_txt('E', p['len'], off) if with_target else '')
         tcol, toff, tlen = ('E', off, p['len']) if with_target else (p['col'], 0, p['len'])
     elif fn == 'COUNTIFS':
         f = '=COUNTIFS(%s)' % ','.join('%s,%s' % (rng_txt(p['col'], p['len']), p['text']) for p in pairs)
@@ -152,7 +157,7 @@ def gen_recipe(rng):
     else:
         f = '=%s(%s,%s)' % (fn, rng_txt('E', n), ','.join('%s,%s' % (rng_txt(p['col'], p['len']), p['text']) for p in pairs))
         tcol, toff, tlen = 'E', 0, n
-    return {'fn': fn, 'formula': f, 'cells': {a: C.jenc(v) for a, v in cells.items()},
+    return {'fn': fn, 'formula': f, 'xt': (pairs[0]['col'] if fn == 'SUMIF' and 'T2!' in f else None), 'cells': {a: C.jenc(v) for a, v in cells.items()},
             'target': [tcol, toff, tlen], 'pairs': [{'col': p['col'], 'len': p['len'], 'k': p['k']} for p in pairs]}
 
 
@@ -180,7 +185,11 @@ def ksyn(k):
 def make_case(rc):
     rt = I.runtime()
     cells = {a: C.jdec(v) for a, v in rc['cells'].items()}
-    out = I.eval_formula(rc['formula'], cells, addr='H9')
+    if rc.get('xt'):
+        other = {rc['xt'] + a[1:]: v for a, v in cells.items() if a[0] == 'E'}          # the target values, on sheet T2 under the criteria column's letter
+        out = I.eval_formula(rc['formula'], addr='H9', sheets=[('S', {a: v for a, v in cells.items() if a[0] != 'E'}), ('T2', other)])
+    else:
+        out = I.eval_formula(rc['formula'], cells, addr='H9')
     tcol, toff, tlen = rc['target']
     target = col_vals(cells, tcol, toff, tlen) if tcol else []
     pairs = [(col_vals(cells, p['col'], 0, p['len']), p['k']) for p in rc['pairs']]
